@@ -201,12 +201,67 @@ func shiftCols(cols []string) []qCol {
 	return out
 }
 
+// a common table expression of the current query: referenced like a table in SQL, expanded to its
+// defining query (SrcSub) in the model
+type qCTE struct {
+	name string
+	def  string // "name AS (SELECT ...)"
+	coq  string // (SrcSub ...)
+	cols []string
+}
+
 type qWorld struct {
 	tables []*qTable
 	alias  int
+	ctes   []*qCTE
+}
+
+// genCTE defines a non-recursive CTE over one of the world's tables
+func (g *qGen) genCTE(w *qWorld) *qCTE {
+	// csvq evaluates every CTE of the WITH clause up front, referenced or not; the model expands
+	// references in place.  The two agree as long as the defining query cannot fail, so no division here
+	saved := g.noDiv
+	g.noDiv = true
+	defer func() { g.noDiv = saved }()
+	inner := g.tableSrc(w)
+	cols := shiftCols(inner.cols)
+	n := 2 + g.r.Intn(2)
+	name := fmt.Sprintf("cte%d", len(w.ctes)+1)
+	var items, citems, names []string
+	for i := 0; i < n; i++ {
+		var e qE
+		if g.r.Intn(3) == 0 {
+			e = g.scalar(cols, 1)
+		} else {
+			c := cols[g.r.Intn(len(cols))]
+			e = qE{c.sql, fmt.Sprintf("(ECol %d)", c.idx)}
+		}
+		items = append(items, fmt.Sprintf("%s AS y%d", e.sql, i))
+		citems = append(citems, "SExpr "+e.coq)
+		names = append(names, fmt.Sprintf("y%d", i))
+	}
+	wh, cwh := "", "None"
+	if g.r.Intn(3) == 0 {
+		c := g.cond(cols, 1)
+		wh, cwh = " WHERE "+c.sql, "(Some "+c.coq+")"
+	}
+	return &qCTE{name: name,
+		def:  name + " AS (SELECT " + strings.Join(items, ", ") + " FROM " + inner.sql + wh + ")",
+		coq:  fmt.Sprintf("(SrcSub (Q (BSelect %s %s None None %s false) [] None None))", inner.coq, cwh, coqList(citems)),
+		cols: names}
 }
 
 func (g *qGen) tableSrc(w *qWorld) qSrc {
+	if len(w.ctes) > 0 && g.r.Intn(2) == 0 {
+		c := w.ctes[g.r.Intn(len(w.ctes))]
+		w.alias++
+		a := fmt.Sprintf("a%d", w.alias)
+		cols := make([]string, len(c.cols))
+		for i, n := range c.cols {
+			cols[i] = a + "." + n
+		}
+		return qSrc{sql: c.name + " AS " + a, coq: c.coq, cols: cols, tables: 1}
+	}
 	t := w.tables[g.r.Intn(len(w.tables))]
 	w.alias++
 	a := fmt.Sprintf("a%d", w.alias)
@@ -224,8 +279,13 @@ func (g *qGen) subSrc(w *qWorld) qSrc {
 	w.alias++
 	a := fmt.Sprintf("s%d", w.alias)
 	var items, citems, names []string
+	pure := g.r.Intn(2) == 0
 	for i := 0; i < n; i++ {
 		e := g.scalar(cols, 1)
+		if pure {
+			c := cols[g.r.Intn(len(cols))]
+			e = qE{c.sql, fmt.Sprintf("(ECol %d)", c.idx)}
+		}
 		items = append(items, fmt.Sprintf("%s AS x%d", e.sql, i))
 		citems = append(citems, "SExpr "+e.coq)
 		names = append(names, fmt.Sprintf("%s.x%d", a, i))
